@@ -32,7 +32,7 @@ ASSUMPTIONS = [
     'the tree); library exceptions do not embed key bytes in their messages; traceback.print_exc() writes to stderr, not to a '
     'log record',
     'one-way functions (prf, prf+, HMAC, integrity.compute, sign, encrypt, digest) clear taint: their outputs are not the listed '
-    'kinds of secret unless stored under a secret name (skeyseed, keymat, keypad, sk_*)',
+    'kinds of secret unless stored under a secret name (skeyseed, keymat, keypad, sk_*); prf(PSK, "Key Pad for IKEv2") is secret by value',
 ]
 
 SECRET_IDS = {'psk', 'skeyseed', 'keymat', 'keypad', 'shared_secret', 'sk_d', 'sk_ai', 'sk_ar', 'sk_ei', 'sk_er', 'sk_pi', 'sk_pr',
@@ -178,6 +178,10 @@ class Secrets:
             return self.why(fi, e.value, depth + 1) or (None if isinstance(e.slice, ast.Slice) else self.why(fi, e.slice, depth + 1))
         if isinstance(e, ast.Call):
             nm = callee_name(e)
+            if nm == 'prf' and any(isinstance(a, ast.Constant) and a.value == b'Key Pad for IKEv2' for a in e.args):
+                # prf(PSK, "Key Pad for IKEv2") stands in for the PSK in every AUTH computation: as secret as the PSK, whatever
+                # the variable holding it is called (and also when no variable holds it)
+                return 'key pad %s (a PSK equivalent)' % src(e)[:50]
             if nm in SANITISERS:
                 return None
             if nm == 'to_dict' and isinstance(e.func, ast.Attribute):
@@ -492,7 +496,7 @@ def run(ctx):
                 idents.add(x.attr)
             elif isinstance(x, ast.arg):
                 idents.add(x.arg)
-    missing = sorted(SECRET_IDS - idents - {'keyring', 'ike_conf', 'ikeconf'})
+    missing = sorted(SECRET_IDS - idents - {'keyring', 'ike_conf', 'ikeconf', 'keypad'})
     ctx.require(not missing, 'anchor vanished: secret identifiers no longer present in the tree: %s (extend SECRET_IDS with their '
                 'new names)' % missing)
     ctx.require(positive_control(ctx), 'positive control failed: the taint rules do not report the leaking fixture')
